@@ -410,7 +410,8 @@ async fn config_wiring(report: &mut Report) {
         let config = Config {
             address: addr.to_string(),
             timeout: 3,
-            rate_limiter: Some(LimiterConfig { duration: 3600, limit }),
+            // (the window is given in seconds: 40 s, not 40 ms)
+            rate_limiter: Some(LimiterConfig { duration: if limit == 1 { 40 } else { 3600 }, limit }),
             proxy_protocol: Some(ProxyProtocol { allow_v1, allow_v2 }),
             ..Default::default()
         };
@@ -449,6 +450,22 @@ async fn config_wiring(report: &mut Report) {
                         "config-wiring/configured-limit-not-enforced".to_string()
                     };
                     report.violation(&sig, &format!("listener from Config{{allow_v1:{allow_v1}, allow_v2:{allow_v2}, limit:{limit}}}: connection {k} with a v{version} header: served={served}, expected {expect}"), json!({"configuration": name, "trace": trace}));
+                }
+            }
+        }
+        if limit == 1 {
+            // the budget of both sources is used up; half a second later the window of 40 s is still open
+            tokio::time::sleep(Duration::from_millis(500)).await;
+            let src: SocketAddr = "198.51.100.20:40001".parse().expect("addr");
+            let c = Conn { peer_ip: "127.0.0.1".parse().expect("ip"), header: Header::V2(src), login: false };
+            if let Ok((end, log)) = one_connection(addr, &c, Some((allow_v1, allow_v2)), 7100).await {
+                let served = log.count("StatusResponse") > 0;
+                end.kill();
+                report.eval(Some(&format!("{name}/retry-inside-the-window")));
+                report.count("connections through passage::start(Config)", 1);
+                trace.push(json!({"header": "v2", "k": "retry after 0.5 s", "served": served, "expected_served": false}));
+                if served {
+                    report.violation("config-wiring/configured-window-not-enforced", "listener from Config{limit:1, duration:40}: a source that had used up its budget was served again half a second later", json!({"configuration": name, "trace": trace}));
                 }
             }
         }
